@@ -173,6 +173,10 @@ pub trait Prop: Sync {
     /// property-specific phases run by the supervisor after the workers (real binary, pipes,
     /// enumerations...).  Returns failures and contributes to evidence via `sup`.
     fn supervisor_phase(&self, _sup: &mut Sup) {}
+    /// replay a case recorded by the supervisor phase (a replay file without a tape)
+    fn replay_supervisor_case(&self, _case: &Value) -> Option<Verdict> {
+        None
+    }
     /// does this property need the real binary built?
     fn needs_binary(&self) -> bool {
         false
@@ -1061,9 +1065,19 @@ pub fn replay_main(prop: &dyn Prop, file: &Path, quiet: bool) -> i32 {
     ctx.strict = true;
     let tape_v = tape_from_json(&v["tape"]);
     let mut tape = Tape::new(tape_v);
-    let verdict = match guarded(|| prop.check(&mut tape, &mut ctx)) {
-        Ok(v) => v,
-        Err(p) => Verdict::Fail(p.failure()),
+    let verdict = if v["tape"].is_null() && !v["case"].is_null() {
+        match prop.replay_supervisor_case(&v["case"]) {
+            Some(v) => v,
+            None => {
+                eprintln!("{} records a case of the supervisor phase (real binary) that cannot be replayed on its own; re-run the check", file.display());
+                return 2;
+            }
+        }
+    } else {
+        match guarded(|| prop.check(&mut tape, &mut ctx)) {
+            Ok(v) => v,
+            Err(p) => Verdict::Fail(p.failure()),
+        }
     };
     match verdict {
         Verdict::Pass | Verdict::Skip(_) => {
